@@ -41,6 +41,9 @@ def plan(tier, seed):
     for i in range(4 if tier == 'quick' else 16):
         specs.append({'kind': 'history', 'count': 12 if tier == 'quick' else 60})
     specs.append({'kind': 'reject', 'count': 120 if tier == 'quick' else 1200})
+    specs.append({'kind': 'reject_grid'})
+    for i in range(2 if tier == 'quick' else 8):
+        specs.append({'kind': 'aliasing', 'count': 10 if tier == 'quick' else 50})
     return specs
 
 
@@ -85,9 +88,9 @@ def swap_section(g, rng):
 def do_write(ctx, g, sh, start, data, tag):
     """Apply one write to game and shadow; compare.  Returns False if the game is now corrupt."""
     n = len(data)
-    case = {'start': start, 'data': data, 'prior': bytes(sh.mem), 'tag': tag}
+    case = {'start': start, 'data': bytes(data), 'prior': bytes(sh.mem), 'tag': tag}
     before = carts.game_memory(g)
-    ctx.case((start, n, data, before), nontrivial=(n > 0))
+    ctx.case((start, n, bytes(data), before), nontrivial=(n > 0))
     ctx.feature('start@' + _bclass(start))
     ctx.feature('end@' + _bclass(start + n))
     spans = sum(1 for _, (a, b) in REGIONS if start < b and start + n > a)
@@ -134,9 +137,124 @@ def do_write(ctx, g, sh, start, data, tag):
     return ok
 
 
+def still_as_model(ctx, g, sh, what, case):
+    """The cart's regions against its shadow at a moment when no write to this cart has happened since the last comparison."""
+    regs = carts.game_regions(g)
+    ctx.monitor('quiescent_comparisons')
+    for name, _ in REGIONS:
+        if regs[name] != sh.region(name):
+            got, exp = regs[name], sh.region(name)
+            d = next((i for i in range(min(len(got), len(exp))) if got[i] != exp[i]), min(len(got), len(exp)))
+            ctx.violation('%s: region %s offset 0x%x is %s, was written as %02x (region length %d)' % (
+                what, name, d, '%02x' % got[d] if d < len(got) else 'missing', exp[d] if d < len(exp) else -1, len(got)), case)
+            return False
+    return True
+
+
+def cart_from_p8(rng, omit):
+    """A cart loaded from a reference-written .p8 that leaves out the sections in `omit` -> (game, shadow)."""
+    import io
+    from pico8.game.formatter.p8 import P8Formatter
+    from pico8.game.game import Game
+    from .. import refcodec as rc
+    regions, _ = carts.random_regions(rng)
+    regions = dict(regions)
+    regions['music'] = rc.music_mask(regions['music'])
+    empty = carts.game_regions(Game.make_empty_game())
+    for n in omit:
+        regions[n] = empty[n]
+    g = P8Formatter.from_file(io.BytesIO(rc.write_p8(regions, b'x=1\n', version=8, omit=omit)))
+    return g, Shadow(b''.join(regions[n] for n, _ in REGIONS))
+
+
+def run_aliasing(ctx, rng, spec):
+    """HISTORIES with more than one holder of the bytes: the caller keeps (and refills) the buffer it passed in, the data comes from a
+    live section of this or another cart, two carts come from .p8 files that leave out the same sections.  After every step every
+    cart must still hold exactly what was written into IT."""
+    region_of = {n: (a, b) for n, (a, b) in REGIONS}
+    for h in range(spec['count']):
+        if h % 2:
+            omit = tuple(n for n in ('map', 'gff', 'sfx', 'music', 'gfx') if rng.random() < 0.5) or ('map',)
+            ga, sa = cart_from_p8(rng, omit)
+            gb, sb = cart_from_p8(rng, omit)
+            ctx.feature('two_carts_from_p8_omitting_same_sections')
+        else:
+            ga, sa = _new_game(rng)
+            gb, sb = _new_game(rng)
+        scratch = {}
+        case0 = {'start': 0, 'data': b'', 'prior': bytes(sa.mem), 'tag': 'aliasing'}
+        if not (still_as_model(ctx, ga, sa, 'freshly made cart', case0) and still_as_model(ctx, gb, sb, 'freshly made second cart', case0)):
+            return
+        for st in range(rng.randint(8, 30)):
+            g, sh, other, osh = (ga, sa, gb, sb) if rng.random() < 0.6 else (gb, sb, ga, sa)
+            k = rng.randrange(5)
+            if k == 0:
+                # a whole region from the caller's scratch bytearray, which the caller refills afterwards (one buffer per size)
+                name = rng.choice([n for n, _ in REGIONS])
+                a, b = region_of[name]
+                buf = scratch.setdefault(b - a, bytearray(b - a))
+                buf[:] = carts.random_bytes(rng, b - a)
+                ok = do_write(ctx, g, sh, a, buf, 'whole-region-bytearray')
+                buf[:] = carts.random_bytes(rng, b - a)
+                ctx.feature('whole_region_from_reused_bytearray')
+                what = 'after the caller refilled the bytearray it had passed to a whole-region write (%s)' % name
+            elif k == 1:
+                # the data is what another section's to_bytes() hands out (gff <-> music have the same size), same or other cart
+                src_name, dst_name = rng.choice((('gff', 'music'), ('music', 'gff'), ('gfx', 'gfx'), ('map', 'map'), ('sfx', 'sfx')))
+                src_cart = g if src_name != dst_name and rng.random() < 0.5 else other
+                data = getattr(src_cart, src_name).to_bytes()
+                ok = do_write(ctx, g, sh, region_of[dst_name][0], data, 'data-from-live-section')
+                ctx.feature('data_from_live_section')
+                what = 'after a whole-region write whose data was %s.to_bytes() of %s cart' % (src_name, 'the same' if src_cart is g else 'another')
+            elif k == 2:
+                s = rng.randrange(0, DATA_END)
+                n = min(rng.randint(1, 300), DATA_END - s)
+                data = bytearray(carts.random_bytes(rng, n))
+                ok = do_write(ctx, g, sh, s, data, 'bytearray')
+                data[:] = bytes(n)
+                what = 'after the caller zeroed the bytearray it had passed'
+            elif k == 3:
+                name = rng.choice([n for n, _ in REGIONS])
+                a, b = region_of[name]
+                ok = do_write(ctx, g, sh, a, carts.random_bytes(rng, b - a), 'whole-region-bytes')
+                what = 'after a whole-region write (%s)' % name
+            else:
+                s = rng.randrange(0, DATA_END)
+                n = min(rng.randint(0, 5000), DATA_END - s)
+                ok = do_write(ctx, g, sh, s, carts.random_bytes(rng, n), 'plain')
+                what = 'after a plain write'
+            if not ok:
+                return
+            case = {'start': 0, 'data': b'', 'prior': bytes(sh.mem), 'tag': 'aliasing', 'history': what}
+            if not still_as_model(ctx, g, sh, what + ', the written cart', case):
+                return
+            if not still_as_model(ctx, other, osh, what + ', ANOTHER cart that was not written to', case):
+                return
+            ctx.feature('aliasing_steps')
+        ctx.feature('aliasing_histories')
+
+
 def run_shard(spec, ctx):
     rng = ctx.rng
     kind = spec['kind']
+    if kind == 'aliasing':
+        run_aliasing(ctx, rng, spec)
+        ctx.sample({'aliasing': 'two carts; reused scratch bytearrays; data taken from live sections; .p8 files omitting sections'})
+        return
+    if kind == 'reject_grid':
+        # every start in a set of interesting addresses x every length in a set of interesting sizes that passes 0x4300
+        starts = sorted({0, 1, 2, 0x1fff, 0x2000, 0x3000, 0x3100, 0x3200, 0x42fe, 0x42ff, 0x4300, 0x4301})
+        sizes = sorted({1, 2, 0x100, 0x1000, 0x1100, 0x2000, 0x4300, 0x4301, 0x42ff, 0x7fff, 0x8000, 0x8001, 0x3d00, 0x8600, 0x10000, 0x4300 * 2})
+        for s_ in starts:
+            for n in sizes:
+                if s_ + n <= DATA_END:
+                    continue
+                for typ in (bytes, bytearray):
+                    g, sh = _new_game(rng)
+                    do_write(ctx, g, sh, s_, typ(carts.random_bytes(rng, n)), 'reject-grid')
+                    ctx.feature('reject_grid_cases')
+        ctx.sample({'reject_grid': 'starts x sizes incl. (0, 0x8000) as bytes and bytearray'})
+        return
     if kind == 'pairs':
         pairs = boundary_pairs()
         i, k = spec['slice']
@@ -228,6 +346,12 @@ def gates(m, tier):
         missed.append('saved carts compared: %d' % mon.get('saved_carts_compared', 0))
     if f.get('section_object_replaced', 0) < 20:
         missed.append('section objects replaced only %d times' % f.get('section_object_replaced', 0))
+    if f.get('reject_grid_cases', 0) < 200 or f.get('aliasing_steps', 0) < 100 or f.get('two_carts_from_p8_omitting_same_sections', 0) < 4:
+        missed.append('reject grid %d, aliasing steps %d, pairs of carts from .p8 files omitting sections %d' % (
+            f.get('reject_grid_cases', 0), f.get('aliasing_steps', 0), f.get('two_carts_from_p8_omitting_same_sections', 0)))
+    for k in ('whole_region_from_reused_bytearray', 'data_from_live_section'):
+        if f.get(k, 0) < 10:
+            missed.append('%s: %d' % (k, f.get(k, 0)))
     if mon.get('region_comparisons', 0) < 1000:
         missed.append('monitor saw too few comparisons')
     return missed
